@@ -115,11 +115,30 @@ def items():
         Fn(TU, "take_leading_comments", mode="stub", contract="ensures node.same_sem(&r.0),"),
         Fn(TU, "prepend_newline_indent", mode="stub", contract="ensures node.same_sem(&r),"),
         Fn(TU, "token_contains_comments", mode="stub"),
-        Fn(ASG, "calculate_hang_level", mode="stub"),
+        Fn(ASG, "calculate_hang_level", contract="decreases expression,"),
         Fn(ASG, "prevent_equals_hanging", mode="stub"),
-        Fn(ASG, "hang_equal_token", mode="stub", contract="ensures tok_of(r) == tok_of(*equal_token),", note="iterator chain over the trailing comments of `=` (comment handling: C03, not claimed here)"),
-        Fn(ASG, "hang_punctuated_list", mode="stub", contract="requires ppairs(*punctuated).len() == 1, exprs_wf(*punctuated), ensures ppairs(r).len() == 1, expr_sig(r) == expr_sig(*punctuated),",
-           note="its `assert!(punctuated.len() == 1)` (one of the assertions C07 names) is the precondition the caller has to establish"),
+        Fn(ASG, "hang_equal_token", contract="ensures tok_of(r) == tok_of(*equal_token), //# C02.hang_equal_token_same", edits=[
+            Between("let equal_token_trailing_trivia = equal_token\n        .trailing_trivia()", ".collect();", "let equal_token_trailing_trivia = hole_vec_token();", why="iterator chain over the trailing comments of `=` (comment handling: C03, not claimed here)"),
+        ]),
+        Fn(ASG, "hang_punctuated_list", contract="""
+    requires ppairs(*punctuated).len() == 1, exprs_wf(*punctuated),   // its `assert!(punctuated.len() == 1)` (assignment.rs:60, one of the assertions C07 names) is an obligation here; both callers establish it
+    ensures ppairs(r).len() == 1, expr_sig(r) == expr_sig(*punctuated), //# C02.hang_punctuated_list_same
+""", edits=[
+            Hole("for (idx, pair) in punctuated.pairs().enumerate() {", "let mut vx_it = peekable(punctuated.pairs());\n    let ghost mut k: int = 0;\n    let mut idx: usize = 0;\n    while let Some(pair) = vx_it.next() {", kind="desugar", why="for over an enumerated iterator: written as its definition (a counter next to the Peekable wrapper)"),
+            Between("pair.punctuation().map(|x| {", "            }),", "match pair.punctuation() { Some(x) => Some(fmt_symbol!(ctx, x, \",\", shape).update_trailing_trivia(FormatTriviaType::Append(\n                    vec![create_newline_trivia(ctx)],\n                ))), None => None },", kind="rewrite", why="Option::map with a closure, written as the match it is"),
+            Loop("while let Some(pair) = vx_it.next()", """
+        invariant
+            0 <= k <= ppairs(*punctuated).len(), ppairs(*punctuated).len() == 1, exprs_wf(*punctuated),
+            pk_rest(&vx_it).len() == ppairs(*punctuated).len() - k,
+            forall|j: int| 0 <= j < pk_rest(&vx_it).len() ==> *(#[trigger] pk_rest(&vx_it)[j]) == ppairs(*punctuated)[k + j],
+            idx == k,
+            ppairs(output).len() == k, //# C02.hang_punctuated_list_loop
+            forall|i: int| 0 <= i < k ==> erase(skel(pair_value(#[trigger] ppairs(output)[i]))) == erase(skel(pair_value(ppairs(*punctuated)[i]))), //# C02.hang_punctuated_list_loop
+        ensures k == ppairs(*punctuated).len(),
+        decreases pk_rest(&vx_it).len(),
+""", step="idx = idx + 1; proof { k = k + 1; }", enter="proof { assert(wf(skel(pair_value(ppairs(*punctuated)[k])))); }"),
+            Before("output\n}", "proof { assert(expr_sig(output) =~= expr_sig(*punctuated)); }\n    "),
+        ]),
         Raw(WRAPPERS, module="formatters::assignment"),
         Fn(ASG, "attempt_assignment_tactics", contract="""
     requires exprs_wf(*expressions), ppairs(*expressions).len() >= 1,
@@ -525,6 +544,9 @@ LABELS = {
     "C02.compound_assignment_same": dict(props=["C02"], text="format_compound_op maps every compound operator to itself; format_compound_assignment returns the same variable, the same operator and the same value (modulo redundant parentheses)"),
     "C02.compound_op_prints_the_operator": dict(props=["C02"], text="format_compound_op prints every compound operator with the symbol the Luau grammar gives it"),
     "C02.last_stmt_same": dict(props=["C02"], text="format_last_stmt_no_trivia returns the same kind of last statement (break stays break, continue stays continue), a return with the same values"),
+    "C02.hang_equal_token_same": dict(props=["C02"], text="hang_equal_token returns the same `=` token (only its trailing trivia are rebuilt)"),
+    "C02.hang_punctuated_list_same": dict(props=["C02", "C07"], text="hang_punctuated_list: one value in, the same value (modulo redundant parentheses) out; its assertion `len == 1` holds at both call sites"),
+    "C02.hang_punctuated_list_loop": dict(props=["C02"], text="hang_punctuated_list loop invariant: the values pushed so far are the input's, in order"),
     "C02.assignment_same": dict(props=["C02"], text="format_assignment_no_trivia: the same variables and the same values, in order, whichever layout is chosen"),
     "C02.assignment_values_same": dict(props=["C02"], text="attempt_assignment_tactics: whichever layout tactic wins, the list has as many values as the input, value i is the input's value i modulo redundant parentheses, and the `=` token is the `=`"),
     "C02.assignment_rehang_loop": dict(props=["C02"], text="attempt_assignment_tactics, one value per line: every value pushed so far — kept as formatted, or hung again from the original expression — is the input's value in the same place"),
